@@ -40,7 +40,7 @@ type vfFile struct {
 	link  string
 	// sizeZero: the backend does not know sizes: Stat reports 0 whatever the content is
 	sizeZero bool
-	mode  os.FileMode
+	mode     os.FileMode
 }
 
 type vfObj struct {
@@ -88,7 +88,7 @@ type vfStore struct {
 	ShortAt func(path string, off int64, n int) int
 	// ReportSizeZero: files created from now on report size 0 in their attributes (a backend without sizes, procfs-like)
 	ReportSizeZero bool
-	Now     int64
+	Now            int64
 }
 
 func vfNewStore() *vfStore {
